@@ -10,6 +10,7 @@ import hashlib
 
 import numpy as np
 
+from .. import seams_h5
 from ..digest import Trace, digest
 
 PROP = 'C13'
@@ -30,17 +31,30 @@ PROBES = ['save_subset_of_its', 'save_unsorted_it', 'overwrite',
           'ragged_none_selected', 'whole_none', 'no_trailing_slash',
           'vars_subset', 'read_missing_it', 'read_all_vars',
           'read_compared_array', 'read_none_expected', 'data_without_it',
-          'read_dup_or_unsorted_it']
+          'read_dup_or_unsorted_it', 'io_fault_fired_in_save',
+          'io_fault_fired_in_read', 'read_after_failed_save',
+          'uncertain_entry_compared', 'scribbled_on_returned_arrays',
+          'scribbled_on_saved_arrays', 'save_unknown_var_raises']
 COMPONENTS = {'aurel.reading.save_data': 'real', 'aurel.reading.read_data':
               'real', 'aurel.reading.read_aurel_data': 'real', 'h5py + '
               'filesystem (tmpfs scratch dir)': 'real',
-              'reference model (dict)': 'harness'}
+              'reference model (dict)': 'harness',
+              'I/O errors (ENOSPC at create_dataset, EIO/EACCES at open, EIO '
+              'at delete)': 'simulated: the name h5py inside aurel.reading is '
+              'rebound to a counting proxy that fails the n-th call of one '
+              'kind, before or after the real operation'}
 ASSUMPTIONS = [
     "save_data is only called with it-values that occur in data['it'] and "
     "vars that are keys of data (anything else is outside the statement)",
     "variable names are plain identifiers (no ' rl' substring)",
     "a ragged None entry at a selected iteration must be skipped (statement: "
-    "'None entries are skipped as documented')"]
+    "'None entries are skipped as documented')",
+    "after a save_data call that failed (injected I/O error, or a variable "
+    "name that is not in the dictionary) every entry that call targeted may "
+    "hold its old value, its new value, or be absent - never anything else; "
+    "entries the failed call did not target are unaffected",
+    "the caller may modify arrays it got from read_data or passed to "
+    "save_data afterwards; what is stored does not change"]
 
 ITS = [0, 1, 2, 3, 5, 8, 13]
 VARNAMES = ['alpha', 'gxx', 'rho0', 'Kdown3', 'betaup3', 'custom_q']
@@ -56,6 +70,10 @@ def generate(rng, tier):
     cfg = {'slash': rng.chance(0.7),
            'dir': rng.pick(['store', 'a/b/store', 'it_dir'])}
     g = rng.child('ops')
+    gf = rng.child('iofaults')
+    # fault-free and fault-injecting configurations are separate runs
+    cfg['io_faults'] = gf.chance(0.3)
+    cfg['scribble'] = gf.chance(0.4)
     nops = g.randint(2, 12) if g.chance(0.7) else g.randint(2, 5)
     ops = []
     saved_its = []
@@ -101,6 +119,15 @@ def generate(rng, tier):
                         'default_it': False, 'it_array': g.chance(0.4),
                         'kw_it_array': g.chance(0.3)})
             saved_its += its
+            if cfg['io_faults'] and k > 0 and gf.chance(0.35):
+                ops[-1]['fault'] = seams_h5.gen_fault(
+                    gf, ('create', 'create', 'open_w', 'delete'))
+            elif cfg['io_faults'] and k > 0 and gf.chance(0.12):
+                # a variable name that is not in the dictionary: the call
+                # raises midway, the caller carries on
+                ops[-1]['bad_var'] = gf.pick(['first', 'last'])
+            if cfg['scribble'] and gf.chance(0.5):
+                ops[-1]['scribble'] = True
         else:
             pool = sorted(set(saved_its)) or [0]
             it = g.subset(pool, 0.3, 1.0, nonempty=True)
@@ -115,6 +142,10 @@ def generate(rng, tier):
             ops.append({'op': 'read', 'it': it, 'vars': vs,
                         'rl': g.weighted([(0, 5), (1, 3), (2, 1), (10, 1)]),
                         'kw_it_array': g.chance(0.3)})
+            if cfg['io_faults'] and gf.chance(0.15):
+                ops[-1]['fault'] = seams_h5.gen_fault(gf, ('open_r',))
+            if cfg['scribble'] and gf.chance(0.6):
+                ops[-1]['scribble'] = True
     return {'config': cfg, 'ops': ops}
 
 
@@ -131,6 +162,11 @@ def simplify(run):
     if run['config']['dir'] != 'store':
         c = copy.deepcopy(run); c['config']['dir'] = 'store'; yield c
     for i, op in enumerate(run['ops']):
+        for fk in ('fault', 'bad_var', 'scribble'):
+            if op.get(fk):
+                c = copy.deepcopy(run); del c['ops'][i][fk]; yield c
+        if op.get('fault') and op['fault']['at'] > 1:
+            c = copy.deepcopy(run); c['ops'][i]['fault']['at'] -= 1; yield c
         if op['op'] == 'save':
             for v in sorted(op['cols']):
                 if len(op['cols']) > 1:
@@ -192,8 +228,19 @@ def _make_array(opi, v, pos, itv, dtype, big=False):
     return np.array(a, dtype=dtype)
 
 
+def _same(g, exp):
+    g = np.array(g)
+    return (g.shape == exp.shape and g.dtype == exp.dtype
+            and digest(g) == digest(exp))
+
+
 def execute(run):
     import aurel
+    with seams_h5.h5_faults() as plan:
+        return _execute(run, aurel, plan)
+
+
+def _execute(run, aurel, plan):
     cfg = run['config']
     tr = Trace()
     viol = []
@@ -208,10 +255,14 @@ def execute(run):
 
     datapath = cfg['dir'] + ('/' if cfg['slash'] else '')
     param = {'datapath': datapath}
-    model = {}            # it -> {(var, rl): array}
+    # it -> {(var, rl): [candidates]}; a candidate is an array or None
+    # (= absent).  One candidate = the entry is known exactly; several = a
+    # failed save left it "old, new or absent" (never anything else).
+    model = {}
     origin = {}           # digest -> description
     compared = 0
     stop = False
+    failed_save_seen = False
     for opi, op in enumerate(run['ops']):
         if stop:
             break
@@ -245,6 +296,11 @@ def execute(run):
                 kwargs['it'] = np.array(op['it'])      # a legal way to pass it
             if op['vars']:
                 kwargs['vars'] = list(op['vars'])
+            bad_var = op.get('bad_var')
+            if bad_var:
+                base = list(op['vars']) if op['vars'] else sorted(data.keys())
+                kwargs['vars'] = (['no_such_var'] + base if bad_var == 'first'
+                                  else base + ['no_such_var'])
             before = (digest(data), digest(kwargs), digest(param))
             # ---- model -----------------------------------------------------
             vars_eff = list(op['vars']) if op['vars'] else sorted(data.keys())
@@ -263,9 +319,9 @@ def execute(run):
             if not cfg['slash']:
                 fault('no_trailing_slash')
             expect_skip_ragged = False
+            targeted = []          # (iv, key, new array)
             for iv in sel:
                 idx = its.index(iv)
-                tgt = model.setdefault(iv, {})
                 for key in vars_eff:
                     if data[key] is None:
                         probe('whole_none')
@@ -275,22 +331,47 @@ def execute(run):
                         expect_skip_ragged = True
                         fault('ragged_none_selected')
                         continue
-                    if (key, op['rl']) in tgt:
-                        fault('overwrite')
-                    tgt[(key, op['rl'])] = np.array(ent)
+                    targeted.append((iv, key, np.array(ent)))
             # ---- system ----------------------------------------------------
+            plan.arm(op.get('fault'))
             try:
                 aurel.save_data(param, data, **kwargs)
                 outcome = 'ok'
             except Exception as e:   # noqa: BLE001 - classified below
                 outcome = f'{type(e).__name__}'
-                why = 'ragged_none' if expect_skip_ragged else 'plain'
-                viol.append({'sig': f'save:raised:{outcome}:{why}',
-                             'op': opi,
-                             'msg': f'op#{opi} save_data(it={op["it"]}, vars='
-                                    f'{op["vars"]}, rl={op["rl"]}) raised '
-                                    f'{outcome}: {e}'})
-                stop = True
+                exc = e
+            fired = plan.disarm()
+            failed = False
+            if outcome != 'ok':
+                if fired is not None:
+                    fault('io_fault_fired_in_save')
+                    failed = True
+                elif bad_var and outcome == 'KeyError':
+                    fault('save_unknown_var_raises')
+                    failed = True
+                else:
+                    why = 'ragged_none' if expect_skip_ragged else 'plain'
+                    viol.append({'sig': f'save:raised:{outcome}:{why}',
+                                 'op': opi,
+                                 'msg': f'op#{opi} save_data(it={op["it"]}, '
+                                        f'vars={op["vars"]}, rl={op["rl"]}) '
+                                        f'raised {outcome}: {exc}'})
+                    stop = True
+            elif fired is not None:
+                # the error was reported after the operation took effect and
+                # save_data did not pass it on: still only old/new/absent
+                fault('io_fault_fired_in_save')
+                failed = True
+            for iv, key, new in targeted:
+                tgt = model.setdefault(iv, {})
+                old = tgt.get((key, op['rl']), [None])
+                if failed:
+                    tgt[(key, op['rl'])] = old + [new, None]
+                else:
+                    if any(c is not None for c in old):
+                        fault('overwrite')
+                    tgt[(key, op['rl'])] = [new]
+            failed_save_seen = failed_save_seen or failed
             after = (digest(data), digest(kwargs), digest(param))
             for nm, b, a in zip(('data', 'kwargs(it/vars)', 'param'),
                                 before, after):
@@ -300,7 +381,16 @@ def execute(run):
                                  'msg': f'op#{opi} save_data changed its '
                                         f'{nm} argument in place: '
                                         f'kwargs now {kwargs}'})
-            tr.event('save', op=op, outcome=outcome)
+            if op.get('scribble'):
+                # the caller reuses its buffers after saving
+                for v in sorted(data):
+                    if isinstance(data[v], list):
+                        for a in data[v]:
+                            if isinstance(a, np.ndarray) and a.size:
+                                a[...] = -777
+                probe('scribbled_on_saved_arrays')
+            tr.event('save', op=op, outcome=outcome,
+                     fired=(fired or {}).get('what'))
         else:
             kwargs = {'it': list(op['it']), 'rl': op['rl']}
             if op.get('kw_it_array'):
@@ -313,15 +403,25 @@ def execute(run):
             its = sorted(set(op['it']))
             if list(op['it']) != its:
                 probe('read_dup_or_unsorted_it')
+            plan.arm(op.get('fault'))
             try:
                 got = aurel.read_data(param, **kwargs)
             except Exception as e:   # noqa: BLE001
+                fired = plan.disarm()
+                tr.event('read', op=op, outcome=type(e).__name__)
+                if fired is not None:
+                    fault('io_fault_fired_in_read')   # raising is fine
+                    continue
                 viol.append({'sig': f'read:raised:{type(e).__name__}',
                              'op': opi,
                              'msg': f'op#{opi} read_data({kwargs}) raised '
                                     f'{type(e).__name__}: {e}'})
-                tr.event('read', op=op, outcome=type(e).__name__)
                 break
+            fired = plan.disarm()
+            if fired is not None:
+                fault('io_fault_fired_in_read')
+            if failed_save_seen:
+                probe('read_after_failed_save')
             after = (digest(kwargs), digest(param))
             if after != before:
                 viol.append({'sig': 'args_mutated:read_data', 'op': opi,
@@ -337,8 +437,12 @@ def execute(run):
             if op['vars']:
                 want = sorted(set(op['vars']) | {'t'})
             else:
-                want = sorted({k for iv in its for (k, r) in model.get(iv, {})
-                               if r == rl and k != 'it'} | {'t'})
+                # a column is certain to exist if some requested iteration
+                # certainly holds the variable
+                want = sorted({k for iv in its
+                               for (k, r), cands in model.get(iv, {}).items()
+                               if r == rl and k != 'it'
+                               and all(c is not None for c in cands)} | {'t'})
             for v in want:
                 if v not in got:
                     viol.append({'sig': 'read:missing_column', 'op': opi,
@@ -353,10 +457,32 @@ def execute(run):
                                         f' entries for {len(its)} iterations'})
                     continue
                 for pos, iv in enumerate(its):
-                    exp = model.get(iv, {}).get((v, rl))
+                    cands = model.get(iv, {}).get((v, rl), [None])
                     g = col[pos]
                     if iv not in model:
                         probe('read_missing_it')
+                    if len(cands) > 1:
+                        probe('uncertain_entry_compared')
+                        if g is None:
+                            if any(c is None for c in cands):
+                                continue
+                        elif any(c is not None and _same(g, c)
+                                 for c in cands):
+                            compared += 1
+                            continue
+                        src = (origin.get(digest(np.array(g)), f'value {g!r}')
+                               if g is not None else 'None')
+                        viol.append({
+                            'sig': 'read:after_failed_save:neither_old_nor_new',
+                            'op': opi,
+                            'msg': f'op#{opi} read it={iv} var={v!r} rl={rl} '
+                                   f'returned [{src}] after a failed save; '
+                                   f'allowed: ' + ', '.join(
+                                       'absent' if c is None else
+                                       origin.get(digest(c), '?')
+                                       for c in cands)})
+                        continue
+                    exp = cands[0]
                     if exp is None and g is None:
                         probe('read_none_expected')
                         continue
@@ -379,9 +505,7 @@ def execute(run):
                     compared += 1
                     probe('read_compared_array')
                     g = np.array(g)
-                    same = (g.shape == exp.shape and g.dtype == exp.dtype
-                            and digest(g) == digest(exp))
-                    if not same:
+                    if not _same(g, exp):
                         src = origin.get(digest(g))
                         if src is None and v in ('t', 'it'):
                             src = f'value {g!r}'
@@ -398,6 +522,17 @@ def execute(run):
                             'sig': f'read:wrong_array:{kind}', 'op': opi,
                             'msg': f'op#{opi} read it={iv} var={v!r} rl={rl}'
                                    f' returned [{src}] but expected [{eo}]'})
+            if op.get('scribble'):
+                # the caller works on what it got (normalises, masks ...)
+                for v in sorted(got):
+                    colv = got[v]
+                    if isinstance(colv, np.ndarray):
+                        continue               # the 'it' column
+                    for a in colv:
+                        if isinstance(a, np.ndarray) and a.size \
+                                and a.flags.writeable:
+                            a[...] = -555
+                probe('scribbled_on_returned_arrays')
             if viol:
                 break
     kinds = ','.join(o['op'][0] for o in run['ops'])
